@@ -637,14 +637,18 @@ namespace detail
         ::_exit(4);
     }
 
+    inline void best_effort_stats();
+
     inline void on_sanitizer_death()
     {
         dump_death("terminated:sanitizer-report");
+        best_effort_stats();
     }
 
     inline void on_terminate()
     {
         dump_death("terminated:std::terminate");
+        best_effort_stats();
         ::_exit(5);
     }
 } // namespace detail
@@ -655,6 +659,17 @@ extern "C" void __sanitizer_set_death_callback(void (*)(void));
 
 namespace vf
 {
+
+inline void detail::best_effort_stats()
+{
+    // the process is about to die: keep what was counted so far (not
+    // async-signal-safe, but there is nothing left to lose)
+    static bool once = false;
+    if (once)
+        return;
+    once = true;
+    stats().dump();
+}
 
 inline void install_death_handlers()
 {
